@@ -155,7 +155,7 @@ Ltac reify env t :=
   | _ => let i := index_of t env in constr:(EVar i)
   end.
 
-From TV Require Import Model_C01 Model_C02 Model_C04 Model_C06 Model_C12 Model_C17 Model_C19.
+From TV Require Import ListNum Model_C01 Model_C02 Model_C04 Model_C06 Model_C12 Model_C17 Model_C19 Model_C20.
 
 Section Trees.
   Context {T : Type} {N : TNum T} (a b c d e f g h i j : T).
@@ -265,3 +265,130 @@ Section Transfers.
     defined [a; b; c] lee_sigma_e -> encl (@lee_sigma I.type IvTNum aI bI cI) (@lee_sigma R RTNum a b c).
   Proof. kernel_transfer @lee_sigma_ev. Qed.
 End Transfers.
+
+(* ================= list-structured models without comparisons =================
+   Sums over layers, the correlated-k mixture and the slant optical-depth loop contain no branch on a number (the
+   saturation flags of the emission integral are inputs), so the enclosure follows by induction over the lists from the
+   operation-level lemmas. *)
+(* ---- operation-level enclosure on real values ---- *)
+Lemma encl_zero : encloses (@n0 _ IvNum) 0%R. Proof. apply (I.fromZ_correct prec 0). Qed.
+Lemma encl_add a b x y : encloses a x -> encloses b y -> encloses (@nadd _ IvNum a b) (x + y)%R.
+Proof. intros Ha Hb. exact (I.add_correct prec a b (Xreal x) (Xreal y) Ha Hb). Qed.
+Lemma encl_sub a b x y : encloses a x -> encloses b y -> encloses (@nsub _ IvNum a b) (x - y)%R.
+Proof. intros Ha Hb. exact (I.sub_correct prec a b (Xreal x) (Xreal y) Ha Hb). Qed.
+Lemma encl_mul a b x y : encloses a x -> encloses b y -> encloses (@nmul _ IvNum a b) (x * y)%R.
+Proof. intros Ha Hb. exact (I.mul_correct prec a b (Xreal x) (Xreal y) Ha Hb). Qed.
+Lemma encl_opp a x : encloses a x -> encloses (@nopp _ IvNum a) (- x)%R.
+Proof. intros Ha. exact (I.neg_correct a (Xreal x) Ha). Qed.
+Lemma encl_exp a x : encloses a x -> encloses (@nexp _ IvTNum a) (exp x).
+Proof. intros Ha. exact (Iexp_correct a (Xreal x) Ha). Qed.
+
+(* ---- lists: pointwise enclosure ---- *)
+Definition encl_list (lI : list I.type) (lR : list R) : Prop := Forall2 encloses lI lR.
+
+Lemma encl_nsum lI lR : encl_list lI lR -> encloses (@nsum _ IvNum lI) (@nsum R RNum lR).
+Proof. induction 1 as [|a x lI lR Hax _ IH]; [exact encl_zero|].
+  unfold nsum. cbn [fold_right]. apply encl_add; assumption. Qed.
+
+Lemma encl_nth_d lI lR i : encl_list lI lR -> encloses (@nth_d _ IvNum lI i) (@nth_d R RNum lR i).
+Proof. intros H. revert i. induction H as [|a x lI lR Hax _ IH]; intros [|i]; unfold nth_d; cbn [nth];
+    try exact encl_zero; [exact Hax|apply IH]. Qed.
+
+Lemma encl_skipn lI lR k : encl_list lI lR -> encl_list (skipn k lI) (skipn k lR).
+Proof. intros H. revert k. induction H as [|a x lI lR Hax Hl IH]; intros [|k]; cbn [skipn]; try constructor; try assumption.
+  apply IH. Qed.
+
+Lemma encl_length lI lR : encl_list lI lR -> length lI = length lR.
+Proof. induction 1; cbn [length]; congruence. Qed.
+
+Lemma encl_map_seq (f : nat -> I.type) (g : nat -> R) a n :
+  (forall i, encloses (f i) (g i)) -> encl_list (map f (seq a n)) (map g (seq a n)).
+Proof. intros H. revert a. induction n as [|n IH]; intros a; cbn [seq map]; constructor; [apply H|apply IH]. Qed.
+
+(* ---- the layered emission integral (Model_C02.intensity): clamp flags are inputs, so nothing branches on a number ---- *)
+Lemma encl_above dI dR l : encl_list dI dR -> encloses (@above _ IvNum dI l) (@above R RNum dR l).
+Proof. intros H. unfold above. apply encl_nsum, encl_skipn, H. Qed.
+Lemma encl_upto dI dR l : encl_list dI dR -> encloses (@upto _ IvNum dI l) (@upto R RNum dR l).
+Proof. intros H. unfold upto. apply encl_add; [apply encl_above, H|apply encl_nth_d, H]. Qed.
+Lemma encl_att c tI tR mI mR : encloses tI tR -> encloses mI mR ->
+  encloses (@att _ IvTNum c tI mI) (@att R RTNum c tR mR).
+Proof. intros Ht Hm. unfold att. destruct c; [exact encl_zero|]. apply encl_exp, encl_opp, encl_mul; assumption. Qed.
+
+Theorem intensity_transfer BI BR dI dR cA cD mI mR :
+  encl_list BI BR -> encl_list dI dR -> encloses mI mR ->
+  encloses (@intensity _ IvTNum BI dI cA cD mI) (@intensity R RTNum BR dR cA cD mR).
+Proof. intros HB Hd Hm. unfold intensity. apply encl_add.
+  - apply encl_mul; [apply encl_nth_d, HB|]. apply encl_exp, encl_opp, encl_mul; [apply encl_nsum, Hd|exact Hm].
+  - rewrite (encl_length _ _ Hd). apply encl_nsum, encl_map_seq. intros l.
+    apply encl_mul; [apply encl_nth_d, HB|]. apply encl_sub; apply encl_att; try assumption;
+      [apply encl_above, Hd|apply encl_upto, Hd]. Qed.
+
+(* ---- the correlated-k intensity (Model_C02.kintensity) ---- *)
+Lemma encl_ktrans wI wR tI tR : encl_list wI wR -> encl_list tI tR ->
+  encloses (@ktrans _ IvTNum wI tI) (@ktrans R RTNum wR tR).
+Proof. intros Hw Ht. unfold ktrans.
+  assert (Hacc : forall aI aR, encloses aI aR ->
+     encloses (fold_left (fun acc p => @nadd _ IvNum acc (@nmul _ IvNum (@nexp _ IvTNum (@nopp _ IvNum (fst p))) (snd p))) (combine tI wI) aI)
+              (fold_left (fun acc p => (acc + exp (- fst p) * snd p)%R) (combine tR wR) aR)).
+  { revert wI wR Hw. induction Ht as [|t x tI tR Htx _ IH]; intros wI wR Hw aI aR Ha; [exact Ha|].
+    destruct Hw as [|w y wI wR Hwy Hw]; [exact Ha|]. cbn [combine fold_left fst snd].
+    apply IH; [exact Hw|]. apply encl_add; [exact Ha|]. apply encl_mul; [apply encl_exp, encl_opp, Htx|exact Hwy]. }
+  apply Hacc. exact encl_zero. Qed.
+
+Lemma encl_kcol kdI kdR g : Forall2 encl_list kdI kdR -> encl_list (@kcol _ IvTNum kdI g) (@kcol R RTNum kdR g).
+Proof. intros H. unfold kcol. induction H as [|rI rR kdI kdR Hr _ IH]; cbn [map]; constructor; [apply encl_nth_d, Hr|exact IH]. Qed.
+
+Lemma encl_ktr wI wR kdI kdR (selI : list I.type -> I.type) (selR : list R -> R) mI mR :
+  encl_list wI wR -> Forall2 encl_list kdI kdR -> encloses mI mR ->
+  (forall cI cR, encl_list cI cR -> encloses (selI cI) (selR cR)) ->
+  encloses (@Model_C02.ktr _ IvTNum wI kdI selI mI) (@Model_C02.ktr R RTNum wR kdR selR mR).
+Proof. intros Hw Hk Hm Hsel. unfold Model_C02.ktr, kmix. apply encl_ktrans; [exact Hw|].
+  rewrite (encl_length _ _ Hw). apply encl_map_seq. intros g. apply encl_mul; [apply Hsel, encl_kcol, Hk|exact Hm]. Qed.
+
+Theorem kintensity_transfer BI BR dI dR kdI kdR wI wR mI mR :
+  encl_list BI BR -> encl_list dI dR -> Forall2 encl_list kdI kdR -> encl_list wI wR -> encloses mI mR ->
+  encloses (@kintensity _ IvTNum BI dI kdI wI mI) (@kintensity R RTNum BR dR kdR wR mR).
+Proof. intros HB Hd Hk Hw Hm. unfold kintensity, ksurface. apply encl_add.
+  - apply encl_mul; [apply encl_nth_d, HB|]. apply encl_mul.
+    + apply encl_exp, encl_opp, encl_mul; [apply encl_nsum, Hd|exact Hm].
+    + apply encl_ktr; try assumption. intros cI cR Hc. apply encl_nsum, Hc.
+  - rewrite (encl_length _ _ Hd). apply encl_nsum, encl_map_seq. intros l.
+    apply encl_mul; [apply encl_nth_d, HB|]. apply encl_sub; apply encl_mul.
+    + apply encl_exp, encl_opp, encl_mul; [apply encl_above, Hd|exact Hm].
+    + apply encl_ktr; try assumption. intros cI cR Hc. apply encl_above, Hc.
+    + apply encl_exp, encl_opp, encl_mul; [apply encl_upto, Hd|exact Hm].
+    + apply encl_ktr; try assumption. intros cI cR Hc. apply encl_upto, Hc. Qed.
+
+(* ---- more operations ---- *)
+Lemma encl_div a b x y : encloses a x -> encloses b y -> y <> 0%R -> encloses (@ndiv _ IvNum a b) (x / y)%R.
+Proof. intros Ha Hb Hy. pose proof (I.div_correct prec a b (Xreal x) (Xreal y) Ha Hb) as H.
+  cbn [Xdiv] in H. unfold Xdiv' in H. destruct (is_zero_spec y) as [Hz|Hz]; [contradiction|exact H]. Qed.
+Lemma encl_ln a x : encloses a x -> (0 < x)%R -> encloses (@nln _ IvTNum a) (ln x).
+Proof. intros Ha Hx. pose proof (I.ln_correct prec a (Xreal x) Ha) as H.
+  cbn [Xln Xbind] in H. unfold Xln' in H. destruct (is_positive_spec x) as [Hp|Hp]; [exact H|lra]. Qed.
+Lemma encl_sqrt a x : encloses a x -> (0 <= x)%R -> encloses (@nsqrt _ IvTNum a) (sqrt x).
+Proof. intros Ha Hx. pose proof (I.sqrt_correct prec a (Xreal x) Ha) as H.
+  cbn [Xsqrt Xbind] in H. unfold Xsqrt' in H. destruct (is_negative_spec x) as [Hp|Hp]; [lra|exact H]. Qed.
+Lemma encl_ofZ z : encloses (@nofZ _ IvNum z) (IZR z). Proof. apply I.fromZ_correct. Qed.
+Lemma encl_pi : encloses (@npi _ IvTNum) PI. Proof. apply I.pi_correct. Qed.
+
+(* ---- slant optical depth (Model_C01.tau_loop): the loop of contribute_tau / contribute_cia ---- *)
+Lemma encl_sig_at sI sR l w : Forall2 encl_list sI sR -> encloses (@sig_at _ IvNum sI l w) (@sig_at R RNum sR l w).
+Proof. intros H. unfold sig_at. apply encl_nth_d. revert l. induction H as [|a x sI sR Hax _ IH]; intros [|l]; cbn [nth];
+    try constructor; [exact Hax|apply IH]. Qed.
+
+Theorem tau_loop_transfer sq sI sR rI rR pI pR l w :
+  Forall2 encl_list sI sR -> encl_list rI rR -> encl_list pI pR ->
+  encloses (@tau_loop _ IvNum sq sI rI pI l w) (@tau_loop R RNum sq sR rR pR l w).
+Proof. intros Hs Hr Hp. unfold tau_loop. rewrite (encl_length _ _ Hp).
+  generalize (seq 0 (length pR)). intros ks.
+  assert (Hacc : forall aI aR, encloses aI aR ->
+    encloses (fold_left (fun acc k => let d := @nth_d _ IvNum rI (k + l) in let d0 := if sq then @nmul _ IvNum d d else d in
+                                     @nadd _ IvNum acc (@nmul _ IvNum (@nmul _ IvNum (@sig_at _ IvNum sI (k + l) w) (@nth_d _ IvNum pI k)) d0)) ks aI)
+             (fold_left (fun acc k => let d := @nth_d R RNum rR (k + l) in let d0 := if sq then (d * d)%R else d in
+                                     (acc + @sig_at R RNum sR (k + l) w * @nth_d R RNum pR k * d0)%R) ks aR)).
+  { induction ks as [|k ks IH]; intros aI aR Ha; [exact Ha|]. cbn [fold_left]. apply IH.
+    apply encl_add; [exact Ha|]. apply encl_mul; [apply encl_mul; [apply encl_sig_at, Hs|apply encl_nth_d, Hp]|].
+    destruct sq; [apply encl_mul; apply encl_nth_d, Hr|apply encl_nth_d, Hr]. }
+  apply Hacc. exact encl_zero. Qed.
+
